@@ -82,6 +82,11 @@ CHECKS = {
             "Model: 1901 presentation states with the denotation invariant. Implementation: each simulated sequence (and every single action) is applied to data sets with and without crystal system; moduli, averages, velocities and volumes must agree to 1e-7 of scale; re-ordered volume blocks must give the same results or an error.",
             "Trusted: Gamma-point modes are permuted among non-acoustic slots only; comparison tolerance 1e-7 (summation order).",
             "DESIGN.md section 4 C13"),
+    "C14": ("model_checking",
+            "TLC model of process histories (spec/Lifecycle.tla: observation law, frozen shared state, stable calculators; all histories <= 6 actions); simulated histories executed one per fresh interpreter process under their hash seed and working directory; logged digests validated by Trace_Lifecycle.tla against a fresh reference run per configuration",
+            "Every observation (arrays, written files, static table after re-filling, `cij run` output) of every process must carry the digest of the single fresh reference run of its configuration, the shared module state must never change, and other live calculators must be untouched after every action; histories include two different calculations interleaved in both orders, repeated reads/writes, seeds 0/1/2/random and three working-directory variants.",
+            "Trusted: SHA-256 digests stand for byte identity; the re-filled static table is compared to nine significant digits; shared state = writer rules + unit conversions.",
+            "DESIGN.md section 4 C14"),
 }
 
 NOT_YET = {
